@@ -527,3 +527,35 @@ def run_api_worker(prop, job, timeout=900):
     import shutil
     shutil.rmtree(d, ignore_errors=True)
     return res, out
+
+
+def coq_eval(requires, exprs, timeout=300):
+    """Evaluate closed Gallina expressions inside Coq with vm_compute (the kernel's VM), one result string per
+    expression (whitespace-normalised, scope annotations removed).  Used to cross-check the extracted OCaml runners."""
+    import tempfile
+    body = [requires, "Set Printing Width 1000000.", "Set Printing Depth 1000000."]
+    for i, e in enumerate(exprs):
+        body.append("Eval vm_compute in (%d, (%s))." % (900000 + i, e))
+    d = os.path.join(CACHE, "cases")
+    os.makedirs(d, exist_ok=True)
+    with tempfile.NamedTemporaryFile("w", suffix=".v", dir=d, prefix="cases", delete=False) as f:
+        f.write("\n".join(body) + "\n")
+        path = f.name
+    with Lock("coq"):
+        rc, out = sh(["coqc", "-q", "-noglob", "-Q", COQ, "GS", path], timeout=timeout)
+    for ext in (".v", ".vo", ".vok", ".vos", ".glob"):
+        try:
+            os.remove(path[:-2] + ext)
+        except OSError:
+            pass
+    try:
+        os.remove(os.path.join(d, "." + os.path.basename(path)[:-2] + ".aux"))
+    except OSError:
+        pass
+    if rc != 0:
+        return None, out
+    res = {}
+    for m in re.finditer(r"=\s*\((9\d{5}),\s*(.*?)\)\s*:\s", out, re.S):
+        txt = " ".join(m.group(2).split()).replace("%Z", "")
+        res[int(m.group(1)) - 900000] = txt
+    return [res.get(i) for i in range(len(exprs))], out
